@@ -161,10 +161,10 @@ def intercept_file(props=None):
         if oc[0] == 'raise':
             obl.append(Obl('C20/%s/raises_only_for_a_missing_file' % U, 'C20', s, z3.And(z3.Not(dom0[p]), TYP(Val.addr(oc[1])) == K('OSError')), oc)); continue
         r = oc[1]
-        obl.append(Obl('C20/%s/above_limit_never_read_placeholder_returned' % U, 'C20', s,
+        obl.append(Obl('C20/%s/above_limit_never_read_placeholder_returned' % U, ('C20', 'C03'), s,
                        z3.Implies(above, z3.And(z3.BoolVal(not reads), s.dget(r, S('file_path')) == want,
                                                 s.dget(r, S('file_content')) == Val.y(z3.StringVal(PLACEHOLDER)))), oc))
-        obl.append(Obl('C20/%s/within_limit_content_is_base64_of_file_bytes' % U, 'C20', s,
+        obl.append(Obl('C20/%s/within_limit_content_is_base64_of_file_bytes' % U, ('C20', 'C03'), s,
                        z3.Implies(z3.Not(above), z3.And(s.dget(r, S('file_path')) == want, s.dget(r, S('file_content')) == Val.y(B64(data0[p])),
                                                         z3.And(*[ev[1] == p for ev in reads]) if reads else z3.BoolVal(False))), oc))
     extra = [repo.find(FI + n)[3] for n in ('_is_file_above_size_limit', '_above_limit_result', '_serialize_file', '_mb_size')]
